@@ -103,7 +103,7 @@ func C06(e *Env) {
 		r.Rule("R02.5", "every declared service — todo ones included — is registered in the generated container under its own name, so a reference that passed validation cannot fail with 'does not exist' (emission rules shared with C02/C15)", 10)
 		r.Rule("R15.1", "a todo service is still registered (shared with C15)", 1)
 	}
-	loopExitRule(e, "R06.5", outputRel, "a later dangling reference is not reported", "ValidateParamsExist", "ValidateServicesExist", "validateParamsExistsInParams", "validateParamsExistsInServices", "validateServicesExistsInServices", "validateServicesExistsInDecorators", "Service.AllArgs")
+	loopExitRule(e, "R06.5", outputRel, "a later dangling reference is not reported", reachableNames(e, outputRel, "ValidateParamsExist", "ValidateServicesExist")...)
 	r.NotCovered = append(r.NotCovered,
 		"the run-time 'does not exist' errors of the runtime library (follow from R06.1 + R06.4 under the trusted runtime)",
 		"the exact diagnostic wording")
